@@ -38,7 +38,7 @@ import (
 )
 
 const (
-	secTables = 0
+	secTables  = 0
 	secHexPair = 1 << 40
 	secCanonEx = 2 << 40
 	secCanonRn = 3 << 40
@@ -491,7 +491,11 @@ func TestC32(t *testing.T) {
 	r.Set("exhaustive_tables", true)
 	walls := map[string]float64{}
 	t0 := time.Now()
-	lap := func(name string) { walls[name] = time.Since(t0).Seconds(); t0 = time.Now(); r.Set("section_wall_s", walls) }
+	lap := func(name string) {
+		walls[name] = time.Since(t0).Seconds()
+		t0 = time.Now()
+		r.Set("section_wall_s", walls)
+	}
 
 	// --- 1: tables, all 256 bytes
 	probes := tableProbes(r)
